@@ -121,6 +121,10 @@ def run_case(st, cid, rng, tmpdir):
         if isinstance(v, dict):
             v = {("iq" if kk == "ig" else kk): vv for kk, vv in v.items()}
         P["iq"] = v
+    elif kind == "LinReg" and "ig" in P and rng.random() < 0.3:
+        # both spellings in one file, the deprecated one exactly 0: the ground current is the one given as ig
+        # (LinReg(name, iq=0.0, ig=X) uses X)
+        P = dict(P, iq=rng.choice([0.0, 0]))
     text = "[%s]\n" % SECTION[kind] + "".join("%s = %s\n" % (k, toml_val(v)) for k, v in P.items() if not isinstance(v, dict))
     for k, v in P.items():
         if isinstance(v, dict):
